@@ -49,6 +49,7 @@ class World:
         _sb._same_vars.clear()
         _sb.EQ_PAIRS.clear()
         _sb._atom_ids.clear()
+        _sb.SHARED_PREFIX.clear()
 
     # -- variables
     def fresh_name(self, base):
@@ -229,19 +230,21 @@ class World:
         return s.model()
 
 
-def explore(run_one, max_paths=100000, stats=None, seed=0, on_path=None, time_budget=None):
+def explore(run_one, max_paths=100000, stats=None, seed=0, on_path=None, time_budget=None, keep=False):
     """Exhaustive DFS over decision prefixes.  run_one(world) -> result (any).
-    Returns list of (decisions, result).  Raises Inconclusive if budget exhausted."""
+    Returns list of (world, result) when keep is set (worlds are large: solver and terms), else the results
+    only.  Raises Inconclusive if a budget is exhausted."""
     stats = stats or Stats()
     stack = [([], [])]
     results = []
+    n_done = 0
     t0 = time.time()
     while stack:
         prefix, labels = stack.pop()
-        if len(results) >= max_paths:
+        if n_done >= max_paths:
             raise Inconclusive("path budget %d exhausted" % max_paths)
         if time_budget is not None and time.time() - t0 > time_budget:
-            raise Inconclusive("time budget exhausted after %d paths" % len(results))
+            raise Inconclusive("time budget exhausted after %d paths" % n_done)
         w = World(prefix, stats=stats, seed=seed)
         w.prefix_labels = labels
         try:
@@ -262,7 +265,9 @@ def explore(run_one, max_paths=100000, stats=None, seed=0, on_path=None, time_bu
         stats.steps += w.steps
         stats.max_depth = max(stats.max_depth, len(w.decisions))
         if not infeasible:
-            results.append((w, res))
+            n_done += 1
+            results.append((w, res) if keep else (None, res))
             if on_path:
                 on_path(w, res)
+        del w
     return results
